@@ -248,7 +248,11 @@ def check(pid, tier, seed, update_lock=False):
                 notes.append(f'obligation {name} refuted; concrete failing input supplied by the stand-in')
                 print(f'REFUTED property={pid} obligation={name} backend={o.get("backend")} (failing input: see the VIOLATION lines of the stand-in)')
                 continue
-            if o.get('exact', True) and (name in lock or not lock):
+            # the lock works at function granularity: a function whose obligations were discharged on
+            # the unchanged tree no longer satisfies its contract (this includes obligation names that
+            # did not exist before, e.g. `unexpected-exception[...]` for a path that now raises)
+            locked_funcs = {':'.join(n.split(':')[:2]) for n in lock}
+            if o.get('exact', True) and (name in lock or not lock or ':'.join(name.split(':')[:2]) in locked_funcs):
                 violations.append(('obligation', o))
             else:
                 undecided.append({'obligation': name, 'reason': 'sat in an abstracted encoding, no native failing input found'})
